@@ -59,6 +59,8 @@ fam({'C08': ('main', 'all')},
 fam({'C20': ('main', 'all')},
     driver='attempt', tv='AttemptTV', mc_quick=[('AttemptMC', 'AttemptMC')], mc_thorough=[('AttemptMC', 'AttemptMC_big')],
     n=(120, 150, 3000, 2000))
+# timestamps at very small rates (free-running only: the interesting behaviour is the ticker's, not a schedule)
+F['C20']['legs'] = [dict(driver='attempt', profile='ts', prop='all', tv='AttemptTV', n=(0, 6000, 0, 60000))]
 
 
 def sig_of(rej):
@@ -223,10 +225,11 @@ F['C18'] = dict(custom=run_enum('retry', 'RetryTV', lambda e: f'{e.get("ev")}:{e
 def run_context(ctx):
     build_harness(ctx)
     run_mc(ctx, 'ContextMC', 'ContextMC' if ctx.quick else 'ContextMC_big', workers=8, timeout=900)
-    for mode, n, seed in (('c', 150 if ctx.quick else 3000, ctx.seed), ('f', 300 if ctx.quick else 6000, ctx.seed + 1000)):
-        out, st = run_harness(ctx, 'context', 'mode' + mode, mode=mode, profile='main', seed=seed, n=n)
+    for mode, profile, n, seed in (('c', 'main', 150 if ctx.quick else 3000, ctx.seed), ('f', 'main', 300 if ctx.quick else 6000, ctx.seed + 1000),
+                                   ('c', 'race', 250 if ctx.quick else 2500, ctx.seed + 2000), ('f', 'race', 4000 if ctx.quick else 60000, ctx.seed + 3000)):
+        out, st = run_harness(ctx, 'context', f'mode{mode}_{profile}', mode=mode, profile=profile, seed=seed, n=n)
         trace = f'{out}/trace.ndjson'
-        nlines, bad = tv_cases(ctx, 'ContextTV', trace, 'tv_' + mode)
+        nlines, bad = tv_cases(ctx, 'ContextTV', trace, f'tv_{mode}_{profile}')
         lines = open(trace).read().splitlines()
         nobs = sum(1 for ln in lines if '"ev":"obs"' in ln)
         ctx.evaluations += st['executions']
@@ -245,8 +248,9 @@ def run_context(ctx):
             bad_execs.add(ex)
             e = json.loads(lines[b - 1])
             ei = next((x for x in st.get('exec_index', []) if x['exec'] == ex), {})
-            report(ctx, f'mode{mode.upper()}:obs:{e.get("kind")}', f'observation at exact quiescence disagrees with ContextTV: {lines[b - 1][:300]}',
-                   {'exec.json': dict(ei, mode=mode, driver='context', spec='ContextTV'), 'rejected_event.json': lines[b - 1]})
+            if len(bad_execs) <= 20:
+                report(ctx, f'mode{mode.upper()}:{profile}:obs:{e.get("kind")}:{len(bad_execs)}', f'observation at exact quiescence disagrees with ContextTV: {lines[b - 1][:300]}',
+                       {'exec.json': dict(ei, mode=mode, driver='context', spec='ContextTV'), 'rejected_event.json': lines[b - 1]})
         ctx.traces_ok += st['executions'] - len(bad_execs)
 
 
